@@ -3,6 +3,7 @@ package gen
 import (
 	"encoding/json"
 	"sort"
+	"strings"
 
 	"pgregory.net/rapid"
 )
@@ -31,7 +32,7 @@ func Break(t *rapid.T, c GraphCase, permille int, refusePct int) (GraphCase, []s
 			case map[string]any:
 				if r, ok := m["$ref"].(string); ok {
 					if Permille(t, "break", permille) {
-						switch Uniform(t, "fault", 8) {
+						switch Uniform(t, "fault", 12) {
 						case 0:
 							m["$ref"] = r + "/nowhere"
 						case 1:
@@ -48,6 +49,13 @@ func Break(t *rapid.T, c GraphCase, permille int, refusePct int) (GraphCase, []s
 							m["$ref"] = "#/definitions/no~1such~0name"
 						case 7:
 							m["$ref"] = c.Root + "#/x-scalars/a/7"
+						case 8, 9, 10, 11:
+							// a known keyword that the target most probably does not carry: on a typed
+							// root the pointer lands on an unset member (if the target does carry it, the
+							// $ref is simply a healthy one - the model decides)
+							if strings.Contains(r, "#") {
+								m["$ref"] = r + []string{"/not", "/additionalProperties", "/items", "/additionalItems"}[Uniform(t, "absent", 4)]
+							}
 						}
 					}
 				}
